@@ -47,7 +47,8 @@ type lcEvent struct {
 }
 
 type lcLeaf struct {
-	lctx *querycontext.LeafExecuteContext
+	cancel context.CancelFunc // cancels the leaf's task context (stands in for its deadline in free event lists)
+	lctx   *querycontext.LeafExecuteContext
 	mdb  *metaDB
 	fct  *capFactory
 	k    int
@@ -84,9 +85,10 @@ func newLcLeaf(k int, holes map[[2]uint32]bool, deadline time.Duration) (*lcLeaf
 	}
 	db := &stubDB{meta: mdb}
 	fct := &capFactory{streams: map[string]*capStream{}}
-	taskCtx := flow.NewTaskContextWithTimeout(context.Background(), deadline)
+	parent, cancel := context.WithCancel(context.Background())
+	taskCtx := flow.NewTaskContextWithTimeout(parent, deadline)
 	req := &protoCommonV1.TaskRequest{RequestID: "lc", RequestType: protoCommonV1.RequestType_Data}
-	l := &lcLeaf{mdb: mdb, fct: fct, k: k, recv: "root"}
+	l := &lcLeaf{cancel: cancel, mdb: mdb, fct: fct, k: k, recv: "root"}
 	l.lctx = querycontext.NewLeafExecuteContext(taskCtx, tracker.NewStageTracker(taskCtx), st, req, fct,
 		&models.Target{Indicator: "leaf"}, []string{l.recv}, db)
 	if err := operator.NewMetadataLookup(l.lctx.StorageExecuteCtx, db).Execute(); err != nil {
@@ -113,7 +115,7 @@ func (l *lcLeaf) state() string {
 		switch {
 		case r.ErrMsg == "":
 			ans = "ok"
-		case strings.Contains(r.ErrMsg, "deadline"):
+		case strings.Contains(r.ErrMsg, "deadline"), strings.Contains(r.ErrMsg, "context canceled"):
 			ans = "deadline"
 		default:
 			ans = "cerr"
@@ -172,10 +174,10 @@ func natList(ids []uint32) string {
 
 // runLcEvents applies the events to a real leaf; disciplined = the list follows the pipeline's discipline.
 func runLcEvents(c *core.Ctx, k int, holes map[[2]uint32]bool, evs []lcEvent, disciplined bool, what string) {
+	// the task context's deadline is never near: in a free event list a send that is going to sit in
+	// the select (ids collected, channel not closed — read off the real state) is ended by cancelling
+	// the context after 30 ms, so no send races with a deadline
 	deadline := leafTimeout
-	if !disciplined {
-		deadline = 150 * time.Millisecond // these may block by design; the model says when
-	}
 	var hs []string
 	for h := range holes {
 		hs = append(hs, fmt.Sprintf("%d:%d", h[0], h[1]))
@@ -186,6 +188,7 @@ func runLcEvents(c *core.Ctx, k int, holes map[[2]uint32]bool, evs []lcEvent, di
 		c.Fail("harness", "collect stream: "+err.Error())
 		return
 	}
+	defer l.cancel()
 	c.Op(fmt.Sprintf("lc-new %d %s", k, joinOr(hs, ",")), l.state())
 	collected := make([]map[uint32]bool, k)
 	for i := range collected {
@@ -214,6 +217,11 @@ func runLcEvents(c *core.Ctx, k int, holes map[[2]uint32]bool, evs []lcEvent, di
 			c.Guard("lc-complete "+f, func() string { l.lctx.GroupingCtx.CompleteGroupingTask(); return l.state() })
 			l.mdb.failKey = 0
 		case "send":
+			if !disciplined {
+				if st := l.state(); strings.Contains(st, "closed=0") && strings.Contains(st, "ans=-") && l.lctx.StorageExecuteCtx.HasGroupingTagValueIDs() {
+					go func() { time.Sleep(30 * time.Millisecond); l.cancel() }()
+				}
+			}
 			t0 := time.Now()
 			var line string
 			c.Guard("lc-send", func() string { l.lctx.SendResponse(nil); line = l.state(); return line })
@@ -505,6 +513,7 @@ func interleaveCase(c *core.Ctx, rng *rand.Rand) {
 			c.Fail("harness", "interleave stream: "+err.Error())
 			return
 		}
+		defer l.cancel()
 		var afterDec, afterLoad []*liThread
 		state := func() string {
 			return fmt.Sprintf("%s ndec=%d nload0=%d", l.state(), len(afterDec), len(afterLoad))
